@@ -39,10 +39,46 @@ def run(ctx):
             ts = [t for t in ts if t.endswith(("/CaseLib.vo", "/Labels.vo"))]
         return ts
     vlib.prop_targets = only_mine
+    cfg = dict(CFG)
+    cfg["shard"] = 65 if ctx.tier == "quick" else 400     # 8 parallel shards in the quick tier, fewer coqc start-ups in the thorough one
     try:
-        return vlib.standard_flow(ctx, CFG)
+        return vlib.standard_flow(ctx, cfg)
     finally:
         vlib.prop_targets = orig
+
+def replay(ctx, path):
+    """./check C06 --replay <file>: re-run the recorded input through the real code, the model and the oracle."""
+    import json
+    obj = json.load(open(path))
+    case = obj.get("case") or obj.get("first_case") or {}
+    hx = case.get("sample", {}).get("input_hex")
+    if hx is None:
+        print(json.dumps(obj, indent=1)); return 0
+    ok, log = vlib.coq_build(vlib.prop_targets("C06") + ["theories/Common/CaseLib.vo", "theories/Common/Labels.vo"])
+    if not ok:
+        print(log[-3000:]); return 1
+    exe, blog = vlib.go_build(ctx)
+    if exe is None:
+        print(blog[-3000:]); return 1
+    lines = vlib.run_driver(ctx, exe, ["-hex", hx] if hx else ["-n", 1])
+    failing, _ = vlib.coq_eval_cases(ctx, CFG["imports"], CFG["checker"], [l["coq"] for l in lines], shard=10)
+    for i, l in enumerate(lines):
+        bad = [f for f in failing if f[0] == i]
+        print(json.dumps(l["sample"], indent=1, sort_keys=True))
+        print("tags:", l["tags"])
+        print("model agrees with implementation:", not bad or bad[0][1])
+        print("specification oracle accepts implementation output:", not bad or bad[0][2])
+        if bad and not bad[0][2]:
+            smp = l["sample"]
+            if smp["accepted"] != smp["validate_ok"]:
+                print("first differing observable: Validate and Parse disagree on acceptance")
+            elif smp["canonical"] != smp["reparsed_canonical"]:
+                print("first differing observable: canonical text %r re-parses to canonical text %r" % (smp["canonical"], smp["reparsed_canonical"]))
+            elif smp["uid"] != smp["reparsed_uid"]:
+                print("first differing observable: UniqueID")
+            else:
+                print("first differing observable: evaluation on the label maps (or UniqueID != hash of String())")
+    return 1 if failing else 0
 
 MANIFEST = dict(
     category="proof",
